@@ -738,7 +738,13 @@ def check_grid_files(ctx, grid, tmp, lean_lines, pending, with_meshio=False):
             write_vtr(base + ".vtr", grid)
         elif fmt == "vts":
             write_vts(base + ".vts", grid)
-        path = base + "." + fmt if fmt != "vtu" else write_vtu(base, grid)
+        try:
+            path = base + "." + fmt if fmt != "vtu" else write_vtu(base, grid)
+        except Exception as e:  # noqa: BLE001   (fieldcompare.io.write refused the explicit description of the grid)
+            ctx.case(("file", fmt, grid_key(grid), tuple(grid["lo"]), "write-raised"), nontrivial=True, tags=[f"fmt-{fmt}", "write-raised"])
+            ctx.violation(case, f"raise:{type(e).__name__}:{e}"[:300], _short([specP, specC]), cls=None,
+                          what=f".{fmt} file of the grid could not be written by fieldcompare.io.write")
+            continue
         fobj, lm = impl_read(path)
         os.remove(path)
         if grid.get("inexact"):
